@@ -167,6 +167,12 @@ func (e *Env) ident(name string) Val {
 	}
 	if e.fr != nil && !e.inOld {
 		if l := e.fr.lookupLocal(name, e.pos); l != nil {
+			if l.Typ != nil && l.Kind == LComp {
+				if _, isStruct := l.Typ.Underlying().(*types.Struct); isStruct {
+					// a struct-valued local: designate its storage, its fields are selected next
+					return locVal(l, types.NewPointer(l.Typ))
+				}
+			}
 			return r.load(e.st, l)
 		}
 	}
@@ -518,7 +524,11 @@ func (e *Env) call(x *ECall) Val {
 			}
 		}
 		comp, _ := r.elemComp(et)
-		return termVal(Select(Select(r.heapGet(e.state(), comp), slBase(e.term(v))), j), et)
+		mc := Select(Select(r.heapGet(e.state(), comp), slBase(e.term(v))), j)
+		if _, isStruct := et.Underlying().(*types.Struct); isStruct {
+			e.cellRange(mc, et)
+		}
+		return termVal(mc, et)
 	case "as", "istype":
 		// as(x, "T"): payload of interface value x viewed as T; istype(x, "T"): dynamic type test
 		if !argN(2) {
@@ -1022,7 +1032,15 @@ func replaceSymbol(s, sym, by string) string {
 // cellRange: a memory cell of a machine integer type holds a value of that type - asserted for ground cells that a
 // contract expression reads (the code's own loads get the same fact when they are executed).
 func (e *Env) cellRange(cell Term, et types.Type) {
-	if et == nil || !isInteger(et) || strings.Contains(cell.S, "q.") {
+	if et == nil || strings.Contains(cell.S, "q.") {
+		return
+	}
+	if _, isStruct := et.Underlying().(*types.Struct); isStruct {
+		// a struct element is a reference to storage that exists in the state it is read in
+		e.r.ctx.Assert(Le(cell, e.r.heapGet(e.state(), "$top")))
+		return
+	}
+	if !isInteger(et) {
 		return
 	}
 	lo, hi := intRange(et)
